@@ -81,7 +81,9 @@ Pool == <<
   \* 33 (addable): a TAGGED csp rule added one at a time is a csp rule (not a blocking rule) while its tag is on
   [W("x.com^") EXCEPT !.left = "dpipe", !.mkind = "csp", !.mval = "d5", !.tag = "t1"],
   \* 34 (addable): an exception that carries $important is an EXCEPTION (rule 10 blocks /ab-)
-  [W("/ab-") EXCEPT !.exc = TRUE, !.important = TRUE]
+  [W("/ab-") EXCEPT !.exc = TRUE, !.important = TRUE],
+  \* 35 (InitSet "res"): a redirect to the resource / alias zal
+  [W("/zzz") EXCEPT !.mkind = "redirect", !.mval = "zal"]
 >>
 \* resources (C06: answers are a function of the LOADED resources): r1 has the alias al1, a later resource
 \* NAMED al1 collides with it - whichever is added first wins; p1 needs a permission and is never served
@@ -90,7 +92,11 @@ ResPool == <<
   [name |-> "r2", aliases |-> {}, redirectable |-> TRUE, perm |-> 0, kind |-> "application/javascript", content |-> "r2"],
   [name |-> "al1", aliases |-> {}, redirectable |-> TRUE, perm |-> 0, kind |-> "text/plain", content |-> "al1"],
   [name |-> "p1", aliases |-> {}, redirectable |-> TRUE, perm |-> 1, kind |-> "text/plain", content |-> "p1"],
-  [name |-> "yy", aliases |-> {"al1"}, redirectable |-> TRUE, perm |-> 0, kind |-> "text/plain", content |-> "yy"]
+  [name |-> "yy", aliases |-> {"al1"}, redirectable |-> TRUE, perm |-> 0, kind |-> "text/plain", content |-> "yy"],
+  \* zz is refused whenever r1 / al1 / yy came first (it shares the alias al1): NONE of its other aliases may stay
+  \* registered, so that the resource NAMED zal can still be added afterwards (rule 35 redirects to zal)
+  [name |-> "zz", aliases |-> {"zal", "al1", "zbl"}, redirectable |-> TRUE, perm |-> 0, kind |-> "text/plain", content |-> "zz"],
+  [name |-> "zal", aliases |-> {}, redirectable |-> TRUE, perm |-> 0, kind |-> "text/plain", content |-> "zal"]
 >>
 ResSeq(st) == [i \in DOMAIN st |-> ResPool[st[i]]]
 StoreNow == EffectiveStore(ResSeq(store))
@@ -99,7 +105,7 @@ PoolX == Pool
 \* (the removeparam rules 30, 31 in blocker mode only: an image does not carry removeparam rules - open finding
 \* wireDropsRemoveparam, decided by C08 - so an engine that reloads would lose them)
 InitRules == IF InitSet = "full" THEN <<1, 2, 3, 4, 5, 6, 7, 8, 10, 11, 23, 24, 26, 27>> \o (IF Mode = "blocker" THEN <<30, 31>> ELSE <<>>)
-             ELSE IF InitSet = "res" THEN <<15, 16, 17, 18, 19, 13, 3>> ELSE <<3, 5, 7, 13>>
+             ELSE IF InitSet = "res" THEN <<15, 16, 17, 18, 19, 13, 3, 35>> ELSE <<3, 5, 7, 13>>
 Addable == IF Mode # "blocker" THEN {} ELSE IF InitSet = "res" THEN {20, 21, 29, 32} ELSE {9, 12, 14, 20, 21, 22, 25, 28, 29, 33, 34}
 
 MkReq(path, alias) ==
